@@ -10,7 +10,8 @@ from ..oracle import timespec as TS
 ID = "C06"
 LEVEL = "exploration"
 BUDGET = {"quick": 55, "thorough": 900}
-FLOOR = {"quick": 2000, "thorough": 20000}
+QUICK_CASES = 1500  # generator items in the quick tier (fixed amount of work; BUDGET is then only a safety cap)
+FLOOR = {"quick": 8000, "thorough": 20000}
 TIMEOUT = 120
 REQUIRED_OBS = ["next_time_queries", "metamorphic_checks", "running_windows", "runs_observed", "instants_expected"]
 RULE = (
